@@ -180,8 +180,40 @@ def run_identity(ctx, rep, rid="R-C02-identity"):
         r.note("no comparison of node collections in the analyzer today (zero expected; positive example: seeded/C02-O)")
 
 
+def run_wholename(ctx, rep, rid="R-C02-wholename"):
+    """Names are compared whole.  A rule that takes a name apart (strips a suffix, looks for a prefix, cuts at a character) treats different
+    names alike: `TON_DINT` is not `TON`.  The analyzer has no reason to look inside a name - Id and Type compare case-insensitively as they
+    are - so no text-dissecting str method is called anywhere in it.  Zero expected."""
+    from vlib.mir import loc_str
+    r = rep.rule(rid, "no rule or transform of the analyzer takes a name apart (strip_*, trim_*matches, split*, find, starts_with/ends_with/contains, slicing, replace): "
+                      "names are looked up and compared whole", floor=0, floor_what="text-dissecting calls in the analyzer")
+    DISSECT = ("strip_suffix", "strip_prefix", "trim_end_matches", "trim_start_matches", "trim_matches", "split", "rsplit", "split_once", "rsplit_once", "splitn", "rsplitn",
+               "split_terminator", "split_at", "find", "rfind", "starts_with", "ends_with", "contains", "get", "index", "replace", "replacen", "char_indices", "chars", "bytes",
+               "truncate", "pop", "remove", "drain")
+    n = 0
+    k = {}
+    for b in sorted(ctx.prog.bodies.values(), key=lambda x: x.id):
+        if b.f["crate"] != "ironplc_analyzer" or "::test" in norm(b.id) or b.f.get("exp"):
+            continue
+        for c in b.calls():
+            nm = c.callee or c.u or ""
+            if not (nm.startswith("core::str::") or nm.startswith("alloc::str::") or nm.startswith("alloc::string::String::")):
+                continue
+            last = nm.split("::")[-1]
+            if last not in DISSECT:
+                continue
+            n += 1
+            fn = norm(b.id).replace("ironplc_analyzer::", "")
+            k[fn] = k.get(fn, 0) + 1
+            r.finding("%s|%s#%d" % (fn, last, k[fn]), loc_str(b.f, c.loc), "the analyzer looks inside a piece of text with %s: a verdict that depends on part of a name treats different names alike" % nm)
+    if not n:
+        r.count_override = 1
+        r.note("the analyzer calls no text-dissecting method today (zero expected; positive example: seeded/C02-P)")
+
+
 def run(ctx, rep):
     run_identity(ctx, rep)
+    run_wholename(ctx, rep)
     run_enumunique(ctx, rep)
     run_taskrefs(ctx, rep)
     run_typeuses(ctx, rep)
